@@ -130,6 +130,21 @@ func (r *vRun) postOp(op uint64, a []uint64, secs []vSection, code, val uint64, 
 		// a failed (re-)Init leaves the table value pointing at a frame that is not an address space
 		r.minit[a[0]&7] = code == 0
 	}
+	// the early reservations as requested through the mapping interface
+	switch op {
+	case 8:
+		if code == 0 {
+			r.resv = append(r.resv, vRegion{val, (a[1] + 4095) >> 12, a[0], a[2]})
+		} else if code != 5 {
+			r.resvBad = true // partially mapped
+		}
+	case 16:
+		if code == 0 && a[0] != 0 {
+			r.resvBad = true // reserved but never mapped
+		}
+	case 0, 1, 3, 4, 5, 6, 9, 10, 12, 13, 17:
+		r.resvBad = true // something else may have touched the reserved range
+	}
 	switch r.prop {
 	case "c04":
 		r.c04Post(op, a, code, val, rootBefore, activeFrame, pre)
@@ -279,6 +294,8 @@ func (r *vRun) c04InDomain(op uint64, a []uint64, pre *vPre) bool {
 				}
 			}
 		}
+	case 18:
+		// translation-neutral bits in upper-level entries: inside the quantifier
 	default:
 		no("set-up-op")
 	}
@@ -461,6 +478,7 @@ func (r *vRun) c04Post(op uint64, a []uint64, code, val uint64, rootBefore *[512
 			r.unchangedExcept(pre, ^uint64(0), nil, "failed-region-op-changed-translation", "region op failed")
 		}
 		r.c04NewTables(root, pages)
+	case 18:
 	default:
 		r.weird = true
 		return
@@ -553,9 +571,31 @@ func (r *vRun) c05Post(a []uint64, secs []vSection, code uint64, pre *vPre) {
 			}
 		}
 	}
-	for p36, old := range pre.oldResv {
-		if !vPresent(old[0], old[1]) || vIdx(p36, 0) == 511 {
-			out("reserved-page-not-mapped")
+	// what "reserved and mapped earlier in boot" means: every region requested through MapRegion (if that is
+	// all that happened to the reserved range), else whatever the old space maps in [earlyReserveLastUsed, temp)
+	resvWant := map[uint64]uint64{}
+	if !r.resvBad {
+		for _, rg := range r.resv {
+			if rg.flags&vP == 0 {
+				out("reservation-mapped-non-present")
+			}
+			for i := uint64(0); i < rg.n; i++ {
+				p36 := (rg.start + i) & vPageMask36
+				if vIdx(p36, 0) == 511 || rg.frame+i >= 1<<40 {
+					out("reserved-page-in-recursive-slot-or-frame-above-2^40")
+				}
+				resvWant[p36] = rg.frame + i
+				if _, sec := want[p36]; sec {
+					out("section-touches-reserved-range")
+				}
+			}
+		}
+	} else {
+		for p36, old := range pre.oldResv {
+			if !vPresent(old[0], old[1]) || vIdx(p36, 0) == 511 {
+				out("reserved-page-not-mapped")
+			}
+			resvWant[p36] = (old[1] & vPhysMask) >> 12
 		}
 	}
 	if len(pre.oldResv) >= 4096 {
@@ -591,7 +631,7 @@ func (r *vRun) c05Post(a []uint64, secs []vSection, code uint64, pre *vPre) {
 	}
 	r.stats["c05-fully-checked"]++
 	r.stats["c05-section-pages-checked"] += len(want)
-	r.stats["c05-reserved-pages-checked"] += len(pre.oldResv)
+	r.stats["c05-reserved-pages-checked"] += len(resvWant)
 	check := func(p36 uint64) bool {
 		c, e := s.walkRoot(root, p36)
 		if x, ok := want[p36]; ok {
@@ -601,13 +641,16 @@ func (r *vRun) c05Post(a []uint64, secs []vSection, code uint64, pre *vPre) {
 			}
 			return true
 		}
-		if old, ok := pre.oldResv[p36]; ok {
+		if fr, ok := resvWant[p36]; ok {
 			// "keep their translations": same frame, present (the exact flags are tied by the correspondence)
-			if c != 3 || e&vP == 0 || e&vPhysMask != old[1]&vPhysMask {
-				r.mon("reserved-page-wrong", "reserved page %#x: old entry %#x, walk gives code %#x entry %#x", p36, old[1], c, e)
+			if c != 3 || e&vP == 0 || (e&vPhysMask)>>12 != fr {
+				r.mon("reserved-page-wrong", "reserved page %#x was mapped to frame %#x, walk of the new space gives code %#x entry %#x", p36, fr, c, e)
 				return false
 			}
 			return true
+		}
+		if _, ok := pre.oldResv[p36]; ok {
+			return true // inside [earlyReserveLastUsed, temp) but never reserved-and-mapped: nothing is required
 		}
 		if vIdx(p36, 0) == 511 {
 			return true
@@ -625,7 +668,7 @@ func (r *vRun) c05Post(a []uint64, secs []vSection, code uint64, pre *vPre) {
 			}
 		}
 	}
-	for p36 := range pre.oldResv {
+	for p36 := range resvWant {
 		for d := uint64(0); d < 3; d++ {
 			if !check((p36 + d - 1) & vPageMask36) {
 				return
